@@ -162,6 +162,13 @@ func cacheChild() {
 						o.Out = "kept"
 					}
 				}
+			case op[0] == 'V':
+				// volume: n distinct templates cached at once (none of them in the document list)
+				n, _ := strconv.Atoi(op[1:])
+				for k := 0; k < n; k++ {
+					mjml.Render(fmt.Sprintf(`<mjml><mj-body><mj-section><mj-column><mj-text>volume %d</mj-text></mj-column></mj-section></mj-body></mjml>`, k), mjml.WithCache())
+				}
+				o.Out = "-"
 			case op == "s":
 				mjml.StopASTCacheCleanup()
 				deadline := time.Now().Add(time.Second)
@@ -567,7 +574,7 @@ func cfgOps(ttl int64) []string {
 
 func runCacheProp(prop string) runFn {
 	return func(res *Result, tier string, seed int64, replay string) {
-		res.Rule = "histories over {cached render of A / A' (one byte differs) / unparsable / invalid-attribute doc / the same behind blank lines / A with trailing whitespace / a document with mj-class, mj-attributes, inline style and an invalid attribute after valid ones, uncached render, advance TTL/2, advance TTL, stop}: exhaustive to length 4 (quick) or 5 (thorough); fast-sweep family (1 ms interval, tick after every step) exhaustive to length 3; seeded random histories up to length 25 (quick) / 125 (thorough); configuration calls made late (while a cleaner runs, after a stop); C14 adds the TTL×interval boundary matrix in both setter orders. Each history runs in a FRESH process (hx cachechild) and on the Lean Model (driver `cache`); per op: outcome vs uncached compilation, parser calls, cache size, cleaner registered, effective config, cleanup goroutines started/exited. Non-trivial = history with at least one cached compilation; distinct by op list"
+		res.Rule = "histories over {cached render of A / A' (one byte differs) / unparsable / invalid-attribute doc / the same behind blank lines / A with trailing whitespace / a document with mj-class, mj-attributes, inline style and an invalid attribute after valid ones, uncached render, advance TTL/2, advance TTL, stop}: exhaustive to length 4 (quick) or 5 (thorough); fast-sweep family (1 ms interval, tick after every step) exhaustive to length 3; seeded random histories up to length 25 (quick) / 125 (thorough); configuration calls made late (while a cleaner runs, after a stop); C14 adds the TTL×interval boundary matrix in both setter orders, a timed survive-the-sweep scenario and a volume scenario (5 000 and 20 000 templates expiring together must be gone two sweeps later). Each history runs in a FRESH process (hx cachechild) and on the Lean Model (driver `cache`); per op: outcome vs uncached compilation, parser calls, cache size, cleaner registered, effective config, cleanup goroutines started/exited. Non-trivial = history with at least one cached compilation; distinct by op list"
 		drv, err := startDriverPool(8)
 		if err != nil {
 			res.Disagree(Violation{Sig: "driver-missing", Kind: "history", What: err.Error()})
@@ -620,6 +627,7 @@ func runCacheProp(prop string) runFn {
 		if prop == "C14" && replay == "" {
 			runCfgSmoke(res)
 			runSweepTiming(res)
+			runSweepVolume(res)
 		}
 	}
 }
@@ -666,6 +674,29 @@ func runSweepTiming(res *Result) {
 		}
 		if out == "kept" {
 			return
+		}
+	}
+}
+
+// runSweepVolume: "removed within a bounded number of cleanup intervals" whatever their number — thousands of templates expire
+// together; two sweeps later none of them may be left.
+func runSweepVolume(res *Result) {
+	for _, n := range []int{5000, 20000} {
+		ops := []string{fmt.Sprintf("I%d", 20*nsMs), fmt.Sprintf("T%d", nsHour), fmt.Sprintf("V%d", n), fmt.Sprintf("a%d", nsHour+1), "t"}
+		obs, crash := runCacheChild(cacheJob{Docs: cacheDocs, Ops: ops})
+		res.Case(fmt.Sprintf("sweep-volume|%d", n), true)
+		in := map[string]interface{}{"ops": ops}
+		if crash != "" || len(obs) != len(ops) {
+			res.Violate(Violation{Sig: "process-crash|volume", Kind: "history", What: "volume history crashed: " + crash, Input: in})
+			continue
+		}
+		stored, left := obs[2].Size, obs[len(obs)-1].Size
+		res.Count(fmt.Sprintf("sweep-volume=%d-stored", stored))
+		if stored < n {
+			res.Note("volume: only %d of %d templates were stored", stored, n)
+		}
+		if left != 0 && obs[len(obs)-1].Swept >= obs[len(obs)-2].Swept+2 {
+			res.Violate(Violation{Sig: "expired-entries-survive-sweeps|volume", Kind: "history", What: fmt.Sprintf("%d templates expired together; after two further cleanup passes %d of them are still in the cache", stored, left), Input: in})
 		}
 	}
 }
